@@ -60,3 +60,41 @@ package boltz
 //@   ensures[a-plain-child-store-loads-only-entities-with-child-data] !store.isExtended && store.parent != nil && result != nil ==> sEnts(store, tx) != 0 && sEntHas(store, tx, id) && ref(result.Bucket) == pathUnder(sel(bktSub[sEnts(store, tx)], id), arr(store.entityPath), len(store.entityPath))
 //@   ensures[an-extended-store-also-loads-parent-only-entities] store.isExtended && store.parent != nil && entPresent(ref(store.parent), id) ==> result != nil
 //@   ensures[an-extended-store-loads-nothing-the-parent-lacks] store.isExtended && store.parent != nil && result != nil ==> entPresent(ref(store.parent), id) || sEntHas(store, tx, id)
+
+
+// ---- every way of loading an entity by id applies the store's one load rule (child data first; for an extended store
+// the parent's entity as a fallback), so the four lookups agree on which entities a store holds ----
+//@ func (*BaseStore).LoadEntity
+//@   props C15
+//@   nosafety
+//@   modifies *
+//@   callpre[looks-up-by-the-store's-load-rule] getEntityBucketForLoad@1: recv == store && arg0 == tx && arg1 == id
+//@   ensures[found-iff-the-load-rule-finds-it] called(getEntityBucketForLoad, 1) && (result1 == nil ==> result0 == (ret(getEntityBucketForLoad, 1) != nil))
+//@ func (*BaseStore).FindById
+//@   props C15
+//@   nosafety
+//@   modifies *
+//@   callpre[looks-up-by-the-store's-load-rule] getEntityBucketForLoad@1: recv == store && arg0 == tx && arg1 == id
+//@   ensures[found-iff-the-load-rule-finds-it] called(getEntityBucketForLoad, 1) && (result2 == nil ==> result1 == (ret(getEntityBucketForLoad, 1) != nil))
+//@ func (*BaseStore).LoadById
+//@   props C15
+//@   nosafety
+//@   modifies *
+//@   callpre[looks-up-by-the-store's-load-rule] getEntityBucketForLoad@1: recv == store && arg0 == tx && arg1 == id
+//@   ensures[not-found-iff-the-load-rule-finds-nothing] called(getEntityBucketForLoad, 1) && (ret(getEntityBucketForLoad, 1) == nil ==> result1 != nil)
+
+// ---- a query-driven delete runs the query on the store it was asked of (a child store selects only entities with child
+// data) and deletes each selected id through the store's own delete, in the caller's context ----
+//@ func (*BaseStore).QueryIds
+//@   props C15
+//@   nosafety
+//@   modifies *
+//@ func (*BaseStore).DeleteWhere
+//@   props C07 C15
+//@   errflow
+//@   nosafety
+//@   modifies *, ocCnt, ocFn, ocRecv, cxN, cxWho, cxPhase, cxCtx, cxPersist, edDone, pdN, pdWho, pdId
+//@   callpre[the-query-runs-on-this-store] QueryIds@1: recv == store && arg0 == ctxTx[ctx] && arg1 == query
+//@   ensures[always-selects-through-this-store's-query] called(QueryIds, 1)
+//@   callpre[each-selected-id-goes-through-the-store's-own-delete-in-the-caller's-context] DeleteById@1: recv == store.impl && arg0 == ctx
+//@   invariant 1: true
